@@ -3,6 +3,9 @@ use crate::common::*;
 use serde_json::{json, Value};
 use std::io::BufReader;
 use sudachi::dic::character_category::CharacterCategory;
+use sudachi::dic::grammar::Grammar;
+use sudachi::dic::DictionaryLoader;
+use sudachi::input_text::{InputBuffer, InputTextIndex};
 
 const NAMES: [(&str, u32); 18] = [
     ("DEFAULT", 1),
@@ -31,6 +34,11 @@ pub struct Def {
     pub hi: u32, // inclusive, as written in the file
     pub cats: Vec<usize>,
     pub single: bool, // written as a single code point
+}
+
+pub struct Reuse {
+    buf: InputBuffer,
+    dict_bytes: Vec<u8>,
 }
 
 fn is_char(x: u32) -> bool {
@@ -156,7 +164,7 @@ fn desc(defs: &[Def], text: &str) -> Value {
            "defs": defs.iter().map(|d| json!([d.lo, d.hi, d.cats.iter().map(|k| NAMES[*k].0).collect::<Vec<_>>()])).collect::<Vec<_>>()})
 }
 
-fn run_case(sink: &mut Sink, defs: &[Def], text: &str, qs: &[u32], verbose: bool) {
+fn run_case(sink: &mut Sink, defs: &[Def], text: &str, qs: &[u32], verbose: bool, reuse: &mut Reuse) {
     let loaded = catch(|| CharacterCategory::from_reader(BufReader::new(text.as_bytes())));
     let cc = match loaded {
         Ok(Ok(cc)) => cc,
@@ -186,6 +194,42 @@ fn run_case(sink: &mut Sink, defs: &[Def], text: &str, qs: &[u32], verbose: bool
             bad = Some(format!("U+{:04X}: implementation reports {:#x}, union of covering lines is {:#x}", c, got, naive(defs, c)));
         }
         answers.push((c, got));
+    }
+    // the same classes must be reported where the analysis reads them: InputBuffer::build fills the per-character classes from
+    // the grammar's table.  ONE buffer object is reused for all definition files of the run (reset + build), so nothing may be
+    // carried over from the table of an earlier file.
+    if bad.is_none() {
+        let probe: String = qs.iter().filter_map(|c| char::from_u32(*c)).filter(|c| *c != '\0').take(60).collect();
+        let bytes = reuse.dict_bytes.clone();
+        let cc2 = cc.clone();
+        let buf = &mut reuse.buf;
+        let r = catch(|| {
+            let mut g: Grammar = DictionaryLoader::read_system_dictionary(&bytes).unwrap().grammar.unwrap();
+            g.set_character_category(cc2);
+            buf.reset().push_str(&probe);
+            buf.start_build().map_err(|e| format!("{:?}", e))?;
+            buf.build(&g).map_err(|e| format!("{:?}", e))?;
+            let mut v = vec![];
+            for (i, ch) in probe.chars().enumerate() {
+                v.push((ch as u32, buf.cat_at_char(i).bits()));
+            }
+            Ok::<_, String>(v)
+        });
+        match r {
+            Ok(Ok(v)) => {
+                for (c, got) in v {
+                    if got != naive(defs, c) {
+                        bad = Some(format!("InputBuffer (reused object) reports {:#x} for U+{:04X}, union of covering lines is {:#x}", got, c, naive(defs, c)));
+                        break;
+                    }
+                }
+            }
+            Ok(Err(e)) => bad = Some(format!("building an input buffer over the query characters failed: {}", e)),
+            Err(p) => {
+                bad = Some(format!("building an input buffer over the query characters panicked: {}", p));
+                reuse.buf = InputBuffer::default();
+            }
+        }
     }
     if verbose {
         println!("impl answers: {:?}", answers);
@@ -282,6 +326,7 @@ fn malformed(sink: &mut Sink, rng: &mut Rng, n: usize) {
 pub fn run(args: &Args) {
     let mut sink = Sink::new("C17", &args.out, &["Model.CharCat", "Model.CharDefText"], args.seed, &args.tier);
     sink.rule("random char.def files (0..13 lines over a small pool of boundary points incl. 0, surrogate-gap and plane-16 edges; duplicates, single points, empty class lists, comments) x query points {every range end and its +-2 neighbours, 0, U+D7FF, U+E000, U+10FFFF, random}; non-trivial = at least two lines overlap or touch; distinct by generated Coq term");
+    let mut reuse = Reuse { buf: InputBuffer::default(), dict_bytes: std::fs::read(format!("{}/sudachi/tests/resources/system.dic.test", repo())).unwrap() };
     if let Some(p) = &args.replay {
         let v: Value = serde_json::from_str(&std::fs::read_to_string(p).unwrap()).unwrap();
         let case = &v["case"];
@@ -302,7 +347,7 @@ pub fn run(args: &Args) {
         let mut rng = Rng::new(args.seed);
         let qs = queries(&defs, &mut rng, true);
         println!("definition file:\n{}", text);
-        run_case(&mut sink, &defs, &text, &qs, true);
+        run_case(&mut sink, &defs, &text, &qs, true, &mut reuse);
         sink.finish();
         return;
     }
@@ -312,7 +357,7 @@ pub fn run(args: &Args) {
         if let Ok(text) = std::fs::read_to_string(format!("{}/{}", repo(), f)) {
             let defs = parse_back(&text);
             let qs = queries(&defs, &mut rng, args.thorough());
-            run_case(&mut sink, &defs, &text, &qs, false);
+            run_case(&mut sink, &defs, &text, &qs, false, &mut reuse);
             sink.tag("corpus_shipped_file");
         }
     }
@@ -327,7 +372,7 @@ pub fn run(args: &Args) {
             Def { lo: 0x30, hi: 0x39, cats: vec![k("NUMERIC")], single: false },
         ];
         let qs = queries(&defs, &mut rng, true);
-        run_case(&mut sink, &defs, text, &qs, false);
+        run_case(&mut sink, &defs, text, &qs, false, &mut reuse);
         sink.tag("corpus_odd_spellings");
     }
     let n = args.n(1200, 20000);
@@ -335,7 +380,7 @@ pub fn run(args: &Args) {
         let defs = gen_defs(&mut rng);
         let text = render(&defs, &mut rng);
         let qs = queries(&defs, &mut rng, args.thorough());
-        run_case(&mut sink, &defs, &text, &qs, false);
+        run_case(&mut sink, &defs, &text, &qs, false, &mut reuse);
     }
     malformed(&mut sink, &mut rng, args.n(200, 2000));
     sink.finish();
